@@ -49,8 +49,9 @@ func (e *engine) Info() core.Info {
 			"the multiset model and the oracle's own distance/intersection predicates (written independently of index/rtree/geom.go) are correct",
 			"structural invariants are read through the add-only verif hook index/rtree/walk_verif.go (read-only walk)",
 		},
-		QuickRuns: 50000, ThoroughRuns: 2500000, QuickWallS: 80, ThoroughWallS: 1500,
+		QuickRuns: 45000, ThoroughRuns: 2500000, QuickWallS: 75, ThoroughWallS: 1500,
 	}
+
 	if e.prop == "C11" {
 		in.Rule = "a case is one seeded history (<=400 ops, one run in 300 up to 7000 ops: insert (also of an already stored object), delete present/absent, intersect queries, over phases grow/churn/drain/drain-all/refill, random branching parameters 2<=min<=max/2, grid or float coordinates, pointer/point/degenerate objects, fan-outs up to 140, and one history in twelve insert-only over slice-typed (uncomparable) geometries); non-trivial = the tree reached depth>=2 AND at least one delete of a stored object happened on a multi-level tree; distinct = distinct hash of the full operation+result log"
 	} else {
@@ -820,6 +821,7 @@ func (r *run) afterOp(op string) {
 		}
 	}
 	// leaf entry boxes equal the object's box
+	var sliceBoxes map[interface{}]geom.Bounds
 	for _, n := range nodes {
 		if !n.Leaf {
 			continue
@@ -836,13 +838,14 @@ func (r *run) afterOp(op string) {
 				want = *o
 			default:
 				// slice-typed geometry: look its box up in the model
-				found := false
-				for _, m := range r.model {
-					if sameObj(m.obj, e.Obj) {
-						want, found = m.bb, true
-						break
+				if sliceBoxes == nil {
+					sliceBoxes = map[interface{}]geom.Bounds{}
+					for _, m := range r.model {
+						sliceBoxes[identKey(m.obj)] = m.bb
 					}
 				}
+				var found bool
+				want, found = sliceBoxes[identKey(e.Obj)]
 				if !found {
 					r.fail("leaf-entry-malformed", "unknown-object", "after %s: a leaf holds %v, which was never inserted", op, e.Obj)
 					return
